@@ -34,19 +34,19 @@ Hypothesis res_defined : res_block_if_defined cfg = true.
 Hypothesis known_base : known KW_BASE = true.
 Hypothesis unknown_aliasof : known KW_ALIASOF = false.
 
-Theorem entity_roundtrip label custom alias bases forms hs cls secs items (res : resources rt) rest :
+Theorem entity_roundtrip label custom alias bases forms hidden hs cls secs items (res : resources rt) rest :
   bases_ok bases -> Forall2 (form_ok H known hparse hunknown) forms hs -> strip cls = cls ->
   Forall (item_wf tag_norm tags_valid vt vt_is_bool vt_is_flags vt_is_choices dec pow2 cfg label) (map snd items) ->
   match res with Some l => Forall (riwf tag_norm tags_valid rt) l | None => True end ->
   entity_read tag_norm tags_valid vt vt_lookup vt_is_bool vt_is_flags vt_is_choices io_lookup dec undec pow2 rt rt_lookup H known hparse hunknown
-    (entity_toks vt vt_text vt_is_bool vt_is_flags io_text dec cfg rt rt_text label custom alias bases forms cls secs items res ++ rest)
+    (entity_toks vt vt_text vt_is_bool vt_is_flags io_text dec cfg rt rt_text label custom alias bases forms hidden cls secs items res ++ rest)
   = Some (mk_head H (match bases with [] => false | _ => alias && custom end) bases hs cls (concat secs),
           with_res vt rt (fold_left (add_item vt vt_is_bool io_decay cfg rt custom) (map snd items) (mk_body vt rt [] [] [] None))
                    (if custom then res else None),
           rest).
 Proof.
   intros Hb Hf Hc Hi Hr. unfold entity_read, entity_toks. rewrite <- app_assoc.
-  rewrite (head_roundtrip H known hparse hunknown known_base unknown_aliasof custom alias bases forms hs cls secs _ Hb Hf Hc).
+  rewrite (head_roundtrip H known hparse hunknown known_base unknown_aliasof custom alias bases forms hidden hs cls secs _ Hb Hf Hc).
   cbn [app].
   match goal with |- context [body_read ?a ?b ?c ?d ?e ?f ?g ?h ?i ?j ?k ?l ?m (TNl :: ?X)] =>
     change (body_read a b c d e f g h i j k l m (TNl :: X)) with (body_read a b c d e f g h i j k l m X) end.
